@@ -53,21 +53,46 @@ Theorem C08_seeded_repeatable : forall s t m g1 g2,
               /\ samples (mlp_ops (Some s) t m n0 ps) (init g1) = samples (mlp_ops (Some s) t m n0 ps) (init g2)).
 Proof. exact seeded_repeatable. Qed.
 
-(* the same with the schedule DERIVED by the run itself from the values of the variates: val (the
-   generators as functions of the position) and nxt (the sampler/coupling logic of a sample: next fresh
-   draw given the values seen so far, the popped Poisson row first) are arbitrary.  Two seeded
-   standard-engine runs from different ambient states derive the same schedule, have the same events
-   and the same values in every sample.  (Before the fix the derived schedules differ:
-   std_derived_orig_refuted.) *)
-Theorem C08_std_seeded_repeatable_derived : forall val nxt fuel s t m n g1 g2,
-  let ss1 := std_derived val nxt fuel (Some s) t m n g1 in
-  let ss2 := std_derived val nxt fuel (Some s) t m n g2 in
+(* NOT definitional: the run may start from ANY state of the process object -- generators anywhere, deques holding
+   whatever rows a previous pricing left behind (f1, f2 arbitrary; same creation counter c: the tracer numbers deques from
+   the start of the run).  A seeded run of each engine has the same events and samples from any two such states.  The
+   proof needs the discipline `lin` (a fixed-date sample pops only rows the run itself pre-drew): an engine that kept old
+   rows would falsify it -- C08_leftover_rows_matter_refuted. *)
+Theorem C08_engines_forget_state : forall s t m g1 g2 c f1 f2,
+  (forall ss, events (std_ops (Some s) t m ss) (mkSt g1 c f1) = events (std_ops (Some s) t m ss) (mkSt g2 c f2)
+              /\ samples (std_ops (Some s) t m ss) (mkSt g1 c f1) = samples (std_ops (Some s) t m ss) (mkSt g2 c f2))
+  /\ (forall n0 lv, events (mlc_ops (Some s) t m n0 lv) (mkSt g1 c f1) = events (mlc_ops (Some s) t m n0 lv) (mkSt g2 c f2)
+              /\ samples (mlc_ops (Some s) t m n0 lv) (mkSt g1 c f1) = samples (mlc_ops (Some s) t m n0 lv) (mkSt g2 c f2))
+  /\ (forall n0 ps, events (mlp_ops (Some s) t m n0 ps) (mkSt g1 c f1) = events (mlp_ops (Some s) t m n0 ps) (mkSt g2 c f2)
+              /\ samples (mlp_ops (Some s) t m n0 ps) (mkSt g1 c f1) = samples (mlp_ops (Some s) t m n0 ps) (mkSt g2 c f2)).
+Proof. exact engines_forget_state. Qed.
+Theorem C08_leftover_rows_matter_refuted :
+  exists s ops g c f1 f2, events (OSeed s :: ops) (mkSt g c f1) <> events (OSeed s :: ops) (mkSt g c f2).
+Proof. exact leftover_rows_matter_refuted. Qed.
+
+(* the same with the schedule DERIVED by the run itself from the values of the variates: val (the generators as
+   functions of the position) and nxt (the sampler/coupling logic of a sample: next fresh draw given the values seen so
+   far, the popped Poisson row first) are arbitrary.  Two seeded standard-engine runs from two arbitrary states derive the
+   same schedule, have the same events and the same values in every sample.  (Before the fix the derived schedules
+   differ: C08_std_derived_orig_refuted.) *)
+Theorem C08_std_seeded_repeatable_derived : forall val nxt fuel s t m n g1 g2 c f1 f2,
+  let st1 := mkSt g1 c f1 in let st2 := mkSt g2 c f2 in
+  let ss1 := std_derived_from val nxt fuel (Some s) t m n st1 in
+  let ss2 := std_derived_from val nxt fuel (Some s) t m n st2 in
   ss1 = ss2
   /\ len ss1 = Z.of_nat n
-  /\ events (std_ops (Some s) t m ss1) (init g1) = events (std_ops (Some s) t m ss2) (init g2)
-  /\ map (fun sm => map val (snd sm)) (samples (std_ops (Some s) t m ss1) (init g1))
-     = map (fun sm => map val (snd sm)) (samples (std_ops (Some s) t m ss2) (init g2)).
+  /\ events (std_ops (Some s) t m ss1) st1 = events (std_ops (Some s) t m ss2) st2
+  /\ map (fun sm => map val (snd sm)) (samples (std_ops (Some s) t m ss1) st1)
+     = map (fun sm => map val (snd sm)) (samples (std_ops (Some s) t m ss2) st2).
 Proof. exact std_seeded_repeatable_derived. Qed.
+
+(* any engine, arbitrary adaptive decisions D (instructions, schedules, levels, passes as functions of the history) taken
+   within the discipline (garun stops at an instruction that violates it), from two arbitrary states: once the first
+   instruction is the seed, the instructions chosen, the events and the samples are the same *)
+Theorem C08_seeded_adaptive_forgets_state : forall D fuel s c g1 g2 f1 f2,
+  garun fuel D (fst (step (mkSt g1 c f1) (OSeed s))) [OSeed s] [ESeed s] None
+  = garun fuel D (fst (step (mkSt g2 c f2) (OSeed s))) [OSeed s] [ESeed s] None.
+Proof. exact seeded_adaptive_forgets_state. Qed.
 
 (* any engine: D, an arbitrary function of the instructions executed and of the events so far (with
    their positions, hence the values), chooses every instruction -- schedules, levels, passes.  If the
@@ -99,6 +124,14 @@ Theorem C08_pool_jump_mode_disjoint : forall g0 nb d n pids now chunks,
   NoDup pids -> Forall (fun c : nat * list sched => (fst c < length pids)%nat) chunks ->
   NoDup (flat_map snd (snd (pool_run_pids g0 (mkMode false nb d) n pids now chunks))).
 Proof. exact pool_jump_mode_disjoint_pids. Qed.
+(* successive pools of one run (the multilevel engine builds one pool per level and pass), jump-time mode: if the
+   (pid, clock) pairs of all workers of all pools are pairwise different -- a pid may recur in another second, a second
+   may serve several pools with different pids -- all samples of all pools use disjoint positions.  That the OS does not
+   hand the same pid to two workers within one second is a hypothesis (NoDup), not proved. *)
+Theorem C08_pools_jump_mode_disjoint : forall g0 nb d pools,
+  NoDup (pools_keys pools) -> Forall pool_ok pools ->
+  NoDup (flat_map snd (pools_samples g0 (mkMode false nb d) pools)).
+Proof. exact pools_jump_mode_disjoint. Qed.
 Theorem C08_pool_jump_mode_disjoint_seeds : forall g0 nb d n wseeds chunks,
   NoDup wseeds -> Forall (fun c : nat * list sched => (fst c < length wseeds)%nat) chunks ->
   NoDup (flat_map snd (snd (pool_run g0 (mkMode false nb d) n wseeds chunks))).
@@ -177,11 +210,15 @@ Print Assumptions C08_single_process_disjoint.
 Print Assumptions C08_samples_pairwise_disjoint.
 Print Assumptions C08_rows_exactly_once.
 Print Assumptions C08_seeded_repeatable.
+Print Assumptions C08_engines_forget_state.
+Print Assumptions C08_leftover_rows_matter_refuted.
 Print Assumptions C08_std_seeded_repeatable_derived.
+Print Assumptions C08_seeded_adaptive_forgets_state.
 Print Assumptions C08_seeded_repeatable_adaptive.
 Print Assumptions C08_adaptive_run_is_run.
 Print Assumptions C08_no_underflow.
 Print Assumptions C08_pool_jump_mode_disjoint.
+Print Assumptions C08_pools_jump_mode_disjoint.
 Print Assumptions C08_pool_jump_mode_disjoint_seeds.
 Print Assumptions C08_seed_of_distinct.
 Print Assumptions C08_workers_share_rows_refuted.
